@@ -273,7 +273,9 @@ pub fn process_file_with_cache(
         return FileProcessResult::Skipped(FileSkipReason::UnrecognizedExtension(ext.to_string()));
     };
 
-    let path_key = file_path.to_string_lossy().replace('\\', "/");
+    // A path that is not valid UTF-8 has no faithful string key (the lossy forms of two different
+    // names can coincide), so such a file is counted without the cache
+    let path_key = file_path.to_str().map(|p| p.replace('\\', "/"));
 
     // Racy-clean rule (as in git's index): a file whose mtime second is not older than this
     // clock reading can be rewritten within that second without changing (mtime, size), so its
@@ -298,9 +300,11 @@ pub fn process_file_with_cache(
                 path: file_path.to_path_buf(),
             });
         };
-        cache_guard
-            .get_if_metadata_matches(&path_key, mtime, size)
-            .map(|entry| LineStats::from(&entry.stats))
+        path_key.as_ref().and_then(|key| {
+            cache_guard
+                .get_if_metadata_matches(key, mtime, size)
+                .map(|entry| LineStats::from(&entry.stats))
+        })
     };
 
     let stats = if let Some(stats) = cached_stats {
@@ -324,10 +328,11 @@ pub fn process_file_with_cache(
         };
 
         // Update cache with metadata (lock errors here are non-critical, just skip update)
-        if mtime < observed_at
+        if let Some(key) = &path_key
+            && mtime < observed_at
             && let Ok(mut cache_guard) = cache.lock()
         {
-            cache_guard.set(&path_key, file_hash, &result, mtime, size);
+            cache_guard.set(key, file_hash, &result, mtime, size);
         }
 
         result
